@@ -52,7 +52,18 @@ fn key_from_file(dir: &str, name: &str, alg: &str, remote: bool) -> LiveKey {
 
 pub fn write_keys(dir: &str, rng: &mut Rng) {
 	for (name, kt) in [("ked", "ed25519"), ("kp256", "p256"), ("ked2", "ed25519")] {
-		let pkey = gen_pkey(kt, rng);
+		let mut pkey = gen_pkey(kt, rng);
+		// the automatic serial number is derived from a digest of the subject key: take a key whose digest has its first
+		// bit set (the value that needs clearing) for the key that gets automatic serials
+		if name == "ked" {
+			for _ in 0..64 {
+				let raw = raw_pub_of_spki(&pkey.public_key_to_der().unwrap());
+				if ring::digest::digest(&ring::digest::SHA256, &raw).as_ref()[0] & 0x80 != 0 {
+					break;
+				}
+				pkey = gen_pkey(kt, rng);
+			}
+		}
 		std::fs::write(format!("{}/{}.pk8", dir, name), pkey.private_key_to_pkcs8().unwrap()).unwrap();
 	}
 	for (name, f) in [("krsa", "rsa2048_a.pk8"), ("krsa2", "rsa2048_b.pk8"), ("krsa3", "rsa3072_a.pk8")] {
@@ -184,6 +195,14 @@ pub fn gen_opt(t: &str, sh: &Shared, tid: u64, pid: u32, phase: &str, case: &str
 		return;
 	}
 	let kind = t.split('/').next().unwrap();
+	// "/rm": the subject name is edited after it was built (an attribute in the middle removed, one pushed again) at every call
+	let edit_name = |p: &mut CertificateParams| {
+		if t.ends_with("/rm") {
+			p.distinguished_name.remove(DnType::OrganizationName);
+			p.distinguished_name.remove(DnType::CountryName);
+			p.distinguished_name.push(DnType::OrganizationName, "again");
+		}
+	};
 	let mut signer_spki: Vec<u8> = Vec::new();
 	let (der, params_ok, det): (Result<Vec<u8>, String>, bool, bool) = match kind {
 		"cert-self" => {
@@ -195,7 +214,8 @@ pub fn gen_opt(t: &str, sh: &Shared, tid: u64, pid: u32, phase: &str, case: &str
 				&sh.k_ed
 			};
 			signer_spki = key.info.spki.clone();
-			let p = to_params(&cert_template(t)).unwrap();
+			let mut p = to_params(&cert_template(t)).unwrap();
+			edit_name(&mut p);
 			let before = p.clone();
 			match guarded(|| p.self_signed(&key.kp)) {
 				Outcome::Ok(c) => (Ok(c.der().to_vec()), c.params() == &before, true),
@@ -218,7 +238,8 @@ pub fn gen_opt(t: &str, sh: &Shared, tid: u64, pid: u32, phase: &str, case: &str
 		"csr" => {
 			let key = if t.ends_with("/2") { &sh.k_p256 } else { &sh.k_ed };
 			signer_spki = key.info.spki.clone();
-			let p = to_params(&cert_template(t)).unwrap();
+			let mut p = to_params(&cert_template(t)).unwrap();
+			edit_name(&mut p);
 			let before = p.clone();
 			let attrs = vec![
 				Attribute { oid: static_oid("1.2.840.113549.1.9.7"), values: crate::der::unhex("31040c027077") },
@@ -314,7 +335,7 @@ pub fn interfere(x: &str, sh: &Shared, rng: &mut Rng) {
 	});
 }
 
-pub const TEMPLATES: [&str; 18] = ["cert-issued/auto/2", "cert-self/r3", "cert-self/e0", "crl/e0", "cert-self/1", "cert-self/2", "cert-issued/1", "cert-issued/2", "csr/1", "csr/2", "crl/1", "crl/2",
+pub const TEMPLATES: [&str; 20] = ["cert-self/rm", "csr/rm", "cert-issued/auto/2", "cert-self/r3", "cert-self/e0", "crl/e0", "cert-self/1", "cert-self/2", "cert-issued/1", "cert-issued/2", "csr/1", "csr/2", "crl/1", "crl/2",
 	"cert-issued/n2", "cert-issued/k2", "cert-issued/ra", "cert-issued/rb", "crl/n2", "crl/k2"];
 /// cheap templates (Ed25519 signers) that alternate between issuers differing in one component: hammered by the hot phase
 pub const HOT: [&str; 7] = ["cert-issued/1", "cert-issued/n2", "cert-issued/k2", "crl/1", "crl/n2", "crl/k2", "cert-issued/auto/2"];
